@@ -217,6 +217,19 @@ def one_trace(tid, nrep, ngen, loginit, lrep0, via_initop, rng, script=None):
         a, b, f = rec.reg.cont(c)
         sids.append(a); smem.append(b); sfp.append(f)
     exc = None
+    if not via_initop and rng.random() < 0.35:
+        # the programme has been reset by hand and its WORKING state edited (or inspected and left dirty) before evolve() is
+        # called: every replicate, the first one included, still starts from the stored initial state
+        try:
+            prog.reset()
+            for s_ in SLOTS:
+                w = getattr(prog, s_, None)
+                if isinstance(w, dict):
+                    w["dirty%d" % rng.randrange(10 ** 6)] = Box([rng.randrange(100)])
+                    if "main" in w and rng.random() < 0.5:
+                        w["main"].v.append(-1)
+        except Exception:
+            pass
     try:
         prog.evolve(nrep, ngen, lb, loginit=loginit)
     except Exception as e:  # noqa
